@@ -2123,7 +2123,7 @@ class RouterEntry(Sequence):
 @bacpypes_debugging
 class NameValue(Sequence):
     sequenceElements = \
-        [ Element('name', CharacterString)
+        [ Element('name', CharacterString, 0)
         , Element('value', AnyAtomic, None, True)
         ]
 
